@@ -282,6 +282,272 @@ class CacheFileInit:
     ensures = [cold_cache_on_corruption]
 
 
+# ------------------------------------------------------------------------------------------------- entity map
+
+
+class _EmAcc(StubObj):
+    def m_get_next_id(self, it):
+        return 7
+
+
+class _EmSvc(StubObj):
+    f_accessory = _EmAcc()
+
+
+OPTIONAL_NUMERIC = ("minValue", "maxValue", "minStep", "handle")
+OPTIONAL_FLAG = ("disconnected_events", "broadcast_events")
+KEY_OF = {"valid_values": "valid-values"}
+
+
+def _char_setup(it):
+    """a characteristic built by the REAL constructor (vendor type, no defaults), then given arbitrary declared
+    metadata the way create_from_dict / a BLE signature read does.  Which optional fields are present is a
+    three-way choice for ALL of them at once (all absent / all present / arbitrary integers and booleans incl. 0
+    and False): the branches of the function are independent, so one arbitrary value per field decides each."""
+    from aiohomekit.model.characteristics.characteristic import Characteristic
+    from aiohomekit.model.characteristics.characteristic_formats import CharacteristicFormats as F
+
+    n0 = len(it.ctx.trace)
+    readable = bool(it.ctx.choose([1, 0]))
+    perms = ["pr", "pw", "ev"] if readable else ["pw"]
+    c = it.instantiate(Characteristic, [_EmSvc(), "F0000001-0000-1000-8000-0026BB765291"], {"format": F.int, "perms": perms})
+    del it.ctx.trace[n0:]
+    c.label = "char"
+    present = bool(it.ctx.choose([1, 0]))
+    upd = {"iid": it.fresh(Int, "iid"), "_value": it.fresh(Int, "value")}
+    for f in OPTIONAL_NUMERIC:
+        upd[f] = it.fresh(Int, f) if present else None
+    for f in OPTIONAL_FLAG:
+        upd[f] = it.fresh(Bool, f) if present else None
+    upd["valid_values"] = SObj(list, label="valid-values") if present else None
+    c.fields.update(upd)
+    it.ctx.ghost.update(readable=readable, present=present, perms=perms)
+    it.env.assumptions_used.add("object fields not named in the contract are at their constructor values")
+    return {"self": c}
+
+
+@contract("aiohomekit.model.characteristics.characteristic:Characteristic.to_accessory_and_service_list", prop="C20")
+class CharacteristicToDict:
+    """what is written for one characteristic names every field the controller needs, for every value of the
+    field - in particular a range bound, step or handle of 0 and a flag that is False are data, not absence"""
+
+    setup = _char_setup
+    raises = {}
+
+    def identity_fields(self, result):
+        return (
+            result["type"] == self.type
+            and result["iid"] == self.iid
+            and result["perms"] is self.perms
+            and result["format"] == self.format
+        )
+
+    def value_iff_readable(self, result, ghost):
+        return ("value" in result) == ghost["readable"] and (not ghost["readable"] or result["value"] == self._value)
+
+    def optional_fields_exactly_when_declared(self, result, ghost):
+        ok = True
+        for f in OPTIONAL_NUMERIC + OPTIONAL_FLAG:
+            ok = ok and (f in result) == ghost["present"]
+            if ghost["present"]:
+                ok = ok and f in result and result[f] == getattr(self, f)
+        ok = ok and ("valid-values" in result) == ghost["present"]
+        if ghost["present"]:
+            ok = ok and "valid-values" in result and result["valid-values"] is self.valid_values
+        return ok
+
+    ensures = [identity_fields, value_iff_readable, optional_fields_exactly_when_declared]
+
+
+def _char_replay(env, con, obs):
+    """boundary corpus on the REAL class: every combination of readable / declared, with the declared values taken
+    from {0, 1, -1} and {False, True}; the executable clauses above are evaluated on the real object and result"""
+    import itertools
+    from aiohomekit.model import Accessory
+    from aiohomekit.model.characteristics.characteristic_formats import CharacteristicFormats as F
+
+    tried = 0
+    for readable, present, num, flag in itertools.product((True, False), (True, False), (0, 1, -1), (False, True)):
+        acc = Accessory(1)
+        svc = acc.add_service("F0000002-0000-1000-8000-0026BB765291", add_required=False)
+        perms = ["pr", "pw", "ev"] if readable else ["pw"]
+        ch = svc.add_char("F0000001-0000-1000-8000-0026BB765291", format=F.int, perms=perms)
+        ch._value = num
+        for f in OPTIONAL_NUMERIC:
+            setattr(ch, f, num if present else None)
+        for f in OPTIONAL_FLAG:
+            setattr(ch, f, flag if present else None)
+        ch.valid_values = [num] if present else None
+        ghost = {"readable": readable, "present": present}
+        tried += 1
+        try:
+            result = ch.to_accessory_and_service_list()
+        except Exception as e:  # noqa: BLE001
+            return {"confirmed": True, "source": "boundary-corpus", "clause": "CharacteristicToDict/no-raise." + type(e).__name__,
+                    "key": "CharacteristicToDict/no-raise", "args": repr((readable, present, num, flag))}
+        for cl in con.clause_list("ensures"):
+            names = [n for n in cl.__code__.co_varnames[: cl.__code__.co_argcount]]
+            ns = {"self": ch, "result": result, "ghost": ghost}
+            try:
+                ok = cl(*[ns[n] for n in names])
+            except KeyError:
+                ok = False
+            if not ok:
+                return {"confirmed": True, "source": "boundary-corpus", "clause": "CharacteristicToDict/ensures." + cl.__name__,
+                        "key": "CharacteristicToDict/ensures." + cl.__name__,
+                        "args": repr({"readable": readable, "declared": present, "numeric fields": num, "flags": flag}), "result": repr(result)[:800]}
+    return {"confirmed": False, "inputs_tried": tried}
+
+
+CharacteristicToDict.replay = staticmethod(_char_replay)
+
+
+class _CharStub(StubObj):
+    def __init__(self, d):
+        self.d = d
+
+    def m_to_accessory_and_service_list(self, it):
+        it.ctx.trace.append(("char_to_dict", self))
+        return self.d
+
+
+class _LinkedStub(StubObj):
+    def __init__(self, iid):
+        self.f_iid = iid
+
+
+def _service_setup(it):
+    from aiohomekit.model.services.service import Service
+
+    s = SObj(Service, label="service")
+    nc = it.ctx.choose([0, 1, 2, 3])
+    nl = it.ctx.choose([0, 1, 2])
+    dicts = [SObj(dict, label=f"char_dict{i}") for i in range(nc)]
+    linked = [_LinkedStub(it.fresh(Int, f"linked_iid{i}")) for i in range(nl)]
+    s.fields.update(
+        iid=it.fresh(Int, "iid"),
+        type=it.fresh(Str, "type"),
+        characteristics=[_CharStub(d) for d in dicts],
+        linked=linked,
+    )
+    it.ctx.ghost.update(dicts=dicts, linked_stubs=linked)
+    return {"self": s}
+
+
+@contract("aiohomekit.model.services.service:Service.to_accessory_and_service_list", prop="C20")
+class ServiceToDict:
+    """the service entry holds the serialised form of EVERY characteristic, in order, its own iid and type, and the
+    iid of every linked service (also an iid the solver picks as 0 - `linked` is dropped only when there is none).
+    Up to 3 characteristics and 2 links (the loop over a concrete list is unrolled; the bodies are independent)."""
+
+    setup = _service_setup
+    raises = {}
+
+    def every_characteristic_in_order(self, result, ghost):
+        cl = result["characteristics"]
+        return len(cl) == len(ghost["dicts"]) and all(a is b for a, b in zip(cl, ghost["dicts"]))
+
+    def identity(self, result):
+        return result["iid"] == self.iid and result["type"] == self.type
+
+    def links(self, result, ghost):
+        ls = ghost["linked_stubs"]
+        if not ls:
+            return "linked" not in result
+        return "linked" in result and len(result["linked"]) == len(ls) and all(a == b.iid for a, b in zip(result["linked"], ls))
+
+    ensures = [every_characteristic_in_order, identity, links]
+
+
+# ------------------------------------------------------------------------------------------------- cache write-through
+
+
+def _mem_setup(it):
+    from aiohomekit.characteristic_cache import CharacteristicCacheMemory
+
+    c = SObj(CharacteristicCacheMemory, label="cache")
+    other = SObj(dict, label="other-entry")
+    c.fields["storage_data"] = {"other-id": other}
+    it.ctx.ghost.update(other=other)
+    return {
+        "self": c,
+        "homekit_id": "this-id",
+        "config_num": it.fresh(Int, "config_num"),
+        "accessories": SObj(list, label="accessories"),
+        "broadcast_key": it.fresh(Str, "broadcast_key") if it.ctx.choose([1, 0]) else None,
+        "state_num": it.fresh(Int, "state_num") if it.ctx.choose([1, 0]) else None,
+    }
+
+
+@contract("aiohomekit.characteristic_cache:CharacteristicCacheMemory.async_create_or_update_map", prop="C20")
+class CacheMemoryUpdate:
+    """the stored entry carries the configuration number, accessory list, broadcast key and state number it was
+    given - each under its own name - and the entries of other pairings are untouched (frame)"""
+
+    setup = _mem_setup
+    raises = {}
+
+    def stores_every_field(self, homekit_id, config_num, accessories, broadcast_key, state_num, result):
+        e = self.storage_data[homekit_id]
+        return (
+            e is result
+            and e["config_num"] == config_num
+            and e["accessories"] is accessories
+            and (e["broadcast_key"] is None if broadcast_key is None else e["broadcast_key"] == broadcast_key)
+            and (e["state_num"] is None if state_num is None else e["state_num"] == state_num)
+        )
+
+    def frame(self, ghost):
+        return list(self.storage_data.keys()) == ["other-id", "this-id"] and self.storage_data["other-id"] is ghost["other"]
+
+    ensures = [stores_every_field, frame]
+
+
+def _file_update_setup(it):
+    install_fs(it)
+    text = it.fresh(Str, "json_text")
+    it.env.stub(hkjson.dumps, lambda it, data: (it.ctx.ghost.__setitem__("dumped", data), text)[1])
+    c = SObj(CharacteristicCacheFile, label="cache")
+    other = SObj(dict, label="other-entry")
+    c.fields["storage_data"] = {"other-id": other}
+    c.fields["location"] = PathStub("cache.json")
+    it.ctx.ghost.update(other=other, text=text)
+    return {
+        "self": c,
+        "homekit_id": "this-id",
+        "config_num": it.fresh(Int, "config_num"),
+        "accessories": SObj(list, label="accessories"),
+        "broadcast_key": it.fresh(Str, "broadcast_key") if it.ctx.choose([1, 0]) else None,
+        "state_num": it.fresh(Int, "state_num") if it.ctx.choose([1, 0]) else None,
+    }
+
+
+@contract("aiohomekit.characteristic_cache:CharacteristicCacheFile.async_create_or_update_map", prop="C20")
+class CacheFileUpdate(CacheMemoryUpdate):
+    """write-through: after the update the cache FILE is rewritten with the JSON text of {"pairings": the whole
+    store, including the new entry}.  (The write is in place - the property asks crash safety of the pairing file
+    only, and a cut cache file is read as empty, CacheFileInit.)"""
+
+    setup = _file_update_setup
+    raises = {}
+
+    def written_through(self, trace, ghost):
+        opened = [e for e in trace if e[0] == "open"]
+        written = [e for e in trace if e[0] == "write"]
+        d = ghost["dumped"]
+        return (
+            len(opened) == 1
+            and opened[0][1] is self.location
+            and "w" in opened[0][2]
+            and len(written) == 1
+            and written[0][2] is ghost["text"]
+            and list(d.keys()) == ["pairings"]
+            and d["pairings"] is self.storage_data
+        )
+
+    ensures = [CacheMemoryUpdate.stores_every_field, CacheMemoryUpdate.frame, written_through]
+
+
 # ------------------------------------------------------------------------------------------------- native stand-in
 
 
